@@ -96,8 +96,8 @@ fn execute_reflink_body() {
     unsafe {
         assert!(!RESTORE_BEFORE_CLONE, "C05.reflink.metadata_restored_only_after_clone");
     }
-    reflink_post(ok.is_some());
     g::common_post(ok, len);
+    reflink_post(ok.is_some());
 }
 ghost_fs_unit!(wrappers, c05_execute_reflink,
     [(reflink_overwrite, stub_reflink_overwrite), (restore_metadata, stub_restore_metadata)], { execute_reflink_body() });
